@@ -33,7 +33,8 @@ EXTRA_KINDS = ["parsed-collision"]
 NS, NAMES = ["", "d", "e"], ["k", "j", "h"]
 MOD = 2305843009213693951
 EXN = {"InvalidOperation": 0, "ValueError": 1, "TypeError": 2, "IndexError": 3, "AssertionError": 5, "AttributeError": 6}
-CLS = {1: "default-ns-collision", 2: "stale-view", 3: "alias-rename"}
+# run_class of AttrEnc.v -> cls of the open findings (class 3, alias rename, is inside the guards since fix 159ed68)
+CLS = {1: "collision-no-namespace-accessor", 2: "second-live-view"}
 OBJ_OPS = {"value": None, "setvalue": "value", "setlocal": "local_name", "setns": "namespace"}
 MUTATORS = ("set", "nset", "del", "ndel", "pop", "update", "setvalue", "setlocal", "setns")
 C1 = {"get": "OGet", "del": "ODel", "contains": "OContains", "pop": "OPop", "nget": "ONodeGet", "ndel": "ONodeDel",
@@ -321,9 +322,9 @@ def unsafe(s, o):
         h = s.held[o[1]]
         old = (h.namespace, h.local_name)
         new = (old[0], o[2]) if o[0] == "setlocal" else (o[2], old[1])
-        if new == old or h._attributes is None:
-            return False
-        return norm(old) == norm(new) or stale(old, h)
+        if new == old or h._attributes is None or norm(old) == norm(new):
+            return False            # another spelling of the same entry: only the cache entry moves
+        return stale(old, h)
     return False
 
 
@@ -359,7 +360,21 @@ def make_gen(rng, mode):
     return gen
 
 
+REGRESSION = [   # witnesses of the findings repaired in /repo (also run through findings.d), and variants
+    ("plain", [["set", ["str", "k"], "1"], ["get", ["str", "k"]], ["set", ["str", "k"], "2"], ["del", ["str", "k"]], ["value", 0]]),
+    ("plain", [["set", ["str", "k"], "1"], ["get", ["str", "k"]], ["setlocal", 0, "j"], ["del", ["str", "j"]], ["value", 0]]),
+    ("created-ns", [["set", ["str", "k"], "1"], ["get", ["str", "k"]], ["setns", 0, "e"], ["pop", ["pair", "e", "k"]], ["value", 0]]),
+    ("parsed-default", [["set", ["str", "k"], "1"], ["get", ["str", "k"]], ["setns", 0, ""], ["len"], ["value", 0],
+                        ["nget", ["str", "k"]], ["setns", 0, "d"], ["iter"], ["value", 0]]),
+    ("parsed-default-other", [["set", ["pair", "", "k"], "1"], ["get", ["pair", "", "k"]], ["setns", 0, "e"], ["len"], ["value", 0]]),
+    ("moved", [["nset", ["str", "k"], "1"], ["len"], ["iter"], ["get", ["pair", "d", "k"]], ["value", 0], ["del", ["str", "{d}k"]], ["value", 0]]),
+]
+REGRESSION_EQ = [('<a k="v"/>', '<a xmlns="d" k="v"/>'), ('<a xmlns="d" k="v"/>', '<a k="v"/>'),
+                 ('<a xmlns="e" k="v"/>', '<a xmlns="d" k="v"/>'), ('<a xmlns="d" k="v"/>', '<a xmlns="d" k="v"/>')]
+
+
 def fixed_cases():
+    yield from REGRESSION
     forms = [["str", "k"], ["str", "{d}k"], ["pair", "d", "k"], ["pair", "", "k"], ["pair", None, "k"]]
     for kind in KINDS:
         for a in forms:
@@ -489,7 +504,7 @@ def check_eq(ctx, pairs):
         if model != ans:
             ctx.mismatch("attrs_eq vs TagAttributes.__eq__", {"case": case, "impl": ans, "model": model})
         if ans != [1, deq]:
-            cls = "eq-default-ns" if same_dns == 0 else "default-ns-collision" if wf == 0 else None
+            cls = "collision-no-namespace-accessor" if wf == 0 else None
             tally(ctx, "outcome:eq-fails/" + str(cls))
             ctx.fail("== answers %r but equality of the presented dictionaries is %r" % (ans, bool(deq)),
                      dict(case, cls=cls, impl_answer=ans), classify)
@@ -552,7 +567,7 @@ def run(ctx, args):
         evaluate(ctx, recs, witness_fails)
         sys.stderr.write("c11: %d sequences evaluated in Coq in %.1f s (%d to go)\n" % (len(recs), time.time() - t0, len(todo)))
         recs = []
-    check_eq(ctx, [(gen_eq_xml(ctx.rng), gen_eq_xml(ctx.rng)) for _ in range(n_eq)])
+    check_eq(ctx, REGRESSION_EQ + [(gen_eq_xml(ctx.rng), gen_eq_xml(ctx.rng)) for _ in range(n_eq)])
     return ctx.finish(
         rule="operation sequences of <= 30 steps (get/set/del/contains/pop/update/iter/len through the mapping, node "
              "subscripts incl. slice deletion, value/local_name/namespace through previously fetched Attribute objects) on "
@@ -560,7 +575,7 @@ def run(ctx, args):
              "namespace, created and moved under a default namespace, parsed with a prefix bound to the default namespace); "
              "accessors: local name, Clark notation, (ns, name), ('', name), (None, name), rarely malformed; first the "
              "finding witnesses and hand-written sequences, then random sequences in mode 'free' (uniform) and 'guarded' "
-             "(avoids the recorded finding classes so that whole runs stay inside the theorem's domain). evaluations = "
+             "(avoids the classes of the open findings so that whole runs stay inside the theorem's domain). evaluations = "
              "steps (each compared with the Gallina model and with the dictionary specification, both evaluated in Coq) "
              "+ pairs of parsed nodes for ==. Non-trivial = a sequence that uses a held Attribute object after the "
              "mapping was mutated, or a pair of different documents that compare equal; distinct by (kind, ops) / by the "
